@@ -1,0 +1,34 @@
+//go:build verif
+
+// Contracts for govc (contract-based deductive verification); comments only.
+package subgrouporder
+
+//@ import sgi "github.com/NVIDIA/KAI-scheduler/pkg/scheduler/api/podgroup_info/subgroup_info"
+
+// Pod-set comparator on the pair (n = active allocated tasks, m = minAvailable); -1 = l first.
+// A pod set below its minimum goes first; among satisfied pod sets the lower allocation ratio n/m.
+//@ define ratio(n int, m int) real = ite(m == 0, ite(n > 0, pinf(), ite(n < 0, ninf(), nan())), real(n) / real(m))
+//@ define psCmp(ln int, lm int, rn int, rm int) int = ite(ln < lm && rn < rm, 0, ite(ln < lm, 0 - 1, ite(rn < rm, 1, ite(ratio(ln, lm) < ratio(rn, rm), 0 - 1, ite(ratio(rn, rm) < ratio(ln, lm), 1, 0)))))
+//@ define sgn(d int) int = ite(d < 0, 0 - 1, ite(d > 0, 1, 0))
+//@ define psL(x any) *sgi.PodSet = unbox(x, "*sgi.PodSet")
+
+// C16 (order functions feeding the heaps must be consistent) / C03 (DESIGN: "surplus ratio orders
+// first under the reversed comparator"): unsatisfied pod sets first, then by allocation ratio.
+// minAvailable >= 1 holds for every PodSet the scheduler builds (NewPodSet(max(MinMember,1)),
+// SetMinAvailable(count >= 1)); with minAvailable == 0 the ratio is NaN/+Inf (see report).
+//@ func PodSetOrderFn
+//@   props C16 C03
+//@   ieee
+//@   requires typeis(l, "*sgi.PodSet") && typeis(r, "*sgi.PodSet")
+//@   requires psL(l) != nil && psL(r) != nil
+//@   pure
+//@   ensures result == psCmp(psL(l).numActiveAllocatedTasks, psL(l).minAvailable, psL(r).numActiveAllocatedTasks, psL(r).minAvailable)
+//@   ensures [unsatisfiedFirst] psL(l).numActiveAllocatedTasks < psL(l).minAvailable && psL(r).numActiveAllocatedTasks >= psL(r).minAvailable ==> result == 0 - 1
+//@   ensures [satisfiedLast] psL(l).numActiveAllocatedTasks >= psL(l).minAvailable && psL(r).numActiveAllocatedTasks < psL(r).minAvailable ==> result == 1
+//@   ensures [bothUnsatisfiedEqual] psL(l).numActiveAllocatedTasks < psL(l).minAvailable && psL(r).numActiveAllocatedTasks < psL(r).minAvailable ==> result == 0
+//@   ensures [lowerRatioFirst] psL(l).minAvailable > 0 && psL(r).minAvailable > 0 && psL(l).numActiveAllocatedTasks >= psL(l).minAvailable && psL(r).numActiveAllocatedTasks >= psL(r).minAvailable ==> result == sgn(psL(l).numActiveAllocatedTasks * psL(r).minAvailable - psL(r).numActiveAllocatedTasks * psL(l).minAvailable)
+//@   lemma [antisym] result == 0 - psCmp(psL(r).numActiveAllocatedTasks, psL(r).minAvailable, psL(l).numActiveAllocatedTasks, psL(l).minAvailable)
+//@   lemma [irreflexive] forall n int, m int :: psCmp(n, m, n, m) == 0
+//@   lemma [transitive] forall an int, am int, bn int, bm int, cn int, cm int :: am > 0 && bm > 0 && cm > 0 && psCmp(an, am, bn, bm) < 0 && psCmp(bn, bm, cn, cm) < 0 ==> psCmp(an, am, cn, cm) < 0
+//@   lemma [equivTransitive] forall an int, am int, bn int, bm int, cn int, cm int :: am > 0 && bm > 0 && cm > 0 && psCmp(an, am, bn, bm) == 0 && psCmp(bn, bm, cn, cm) == 0 ==> psCmp(an, am, cn, cm) == 0
+//@ end
